@@ -262,6 +262,10 @@ class CSSMediaRule(cssrule.CSSRuleRules):
             self._media = oldMedia
             self._cssRules = oldCssRules
             raise
+        if self._cssRules is not oldCssRules:
+            # the replaced rules are not part of this rule anymore
+            for rule in oldCssRules:
+                rule._parentRule = None
 
     cssText = property(
         _getCssText,
